@@ -58,9 +58,10 @@ theorem lazy_eq_memory_bits (frames : List (List Bool)) (rows cols : Nat) (hn : 
 /-- 0-based indices address the same frames as 1-based numbers. -/
 theorem index_eq_number (pd : List Nat) (rows cols samples N k : Int) :
     memFrameBits pd rows cols samples N k true = memFrameBits pd rows cols samples N (k + 1) false := by
-  unfold memFrameBits
+  unfold memFrameBits Skel.frameBits Skel.index
   have : stdFrameIndex k true N = stdFrameIndex (k + 1) false N := by
     unfold stdFrameIndex; grind (splits := 40)
+  simp only [singleSkel, singleStdArgs, singleRawArgs, singleDecodeIndex, bind, Except.bind]
   rw [this]
 
 /-- Out-of-range numbers are refused on the whole access path (not only by the helper). -/
@@ -68,7 +69,8 @@ theorem memory_frame_rejected (pd : List Nat) (rows cols samples N k : Int) (asI
     (h : (if asIndex then k else k - 1) < 0 ∨ N ≤ (if asIndex then k else k - 1)) :
     memFrameBits pd rows cols samples N k asIndex = .error .index ∧
     lazyFrameBits pd rows cols samples N k asIndex = .error .index := by
-  unfold memFrameBits lazyFrameBits
+  unfold memFrameBits lazyFrameBits Skel.frameBits Skel.index
+  simp only [singleSkel, singleStdArgs, singleRawArgs, singleDecodeIndex, bind, Except.bind]
   rw [frame_number_rejected k N asIndex h]
   exact ⟨rfl, rfl⟩
 
@@ -81,8 +83,11 @@ theorem memory_frame_bytes (frames : List (List Nat)) (rows cols samples bits : 
     memFrameBytes frames.flatten rows cols samples bits frames.length pi ((i : Int) + 1) false = .ok frames[i] := by
   have h1 : stdFrameIndex ((i : Int) + 1) false frames.length = .ok (i : Int) := by
     rw [stdFrameIndex_ok_iff]; simp; omega
-  unfold memFrameBytes memRaw
+  unfold memFrameBytes Skel.frameBytes Skel.index
+  simp only [singleSkel, singleStdArgs, singleRawArgs, singleDecodeIndex, bind, Except.bind]
   rw [h1]
+  simp only []
+  unfold memRaw
   simp only [bind, Except.bind]
   unfold rawFrameRange
   have hpi' : (pi == "YBR_FULL_422") = false := by simpa using hpi
@@ -101,11 +106,6 @@ theorem memory_frame_bytes (frames : List (List Nat)) (rows cols samples bits : 
   have : i * L + L - i * L = L := by omega
   rw [this, flatten_drop_take frames L hlen i hi]
 
-/-- bytes per frame as the in-memory path computes them: `bits * n_pixels / 8` with
-    `n_pixels = rows*cols*2` for YBR_FULL_422 and `rows*cols*samples` otherwise -/
-def frameBytes (rows cols samples bits : Nat) (pi : String) : Nat :=
-  bits * (if pi = "YBR_FULL_422" then rows * cols * 2 else rows * cols * samples) / 8
-
 /-- **Frames of >= 8 bits, in memory, every photometric interpretation** (YBR_FULL_422 stores 2 bytes per pixel). -/
 theorem memory_frame_bytes_any (frames : List (List Nat)) (rows cols samples bits : Nat) (pi : String)
     (hb : bits ≠ 1)
@@ -114,8 +114,11 @@ theorem memory_frame_bytes_any (frames : List (List Nat)) (rows cols samples bit
     memFrameBytes frames.flatten rows cols samples bits frames.length pi ((i : Int) + 1) false = .ok frames[i] := by
   have h1 : stdFrameIndex ((i : Int) + 1) false frames.length = .ok (i : Int) := by
     rw [stdFrameIndex_ok_iff]; simp; omega
-  unfold memFrameBytes memRaw
+  unfold memFrameBytes Skel.frameBytes Skel.index
+  simp only [singleSkel, singleStdArgs, singleRawArgs, singleDecodeIndex, bind, Except.bind]
   rw [h1]
+  simp only []
+  unfold memRaw
   simp only [bind, Except.bind]
   unfold rawFrameRange
   have hb' : (((bits : Int)) == 1) = false := by
@@ -149,8 +152,11 @@ theorem lazy_frame_bytes_any (frames : List (List Nat)) (rows cols samples bits 
     rw [stdFrameIndex_ok_iff]; simp; omega
   have h2 : lazyIndexGuard (i : Int) frames.length = .ok (i : Int) := by
     rw [lazyIndexGuard_ok_iff]; omega
-  unfold lazyFrameBytes lazyRaw
+  unfold lazyFrameBytes Skel.frameBytes Skel.index
+  simp only [singleSkel, singleStdArgs, singleRawArgs, singleDecodeIndex, bind, Except.bind]
   rw [h1]
+  simp only []
+  unfold lazyRaw
   simp only [bind, Except.bind, h2]
   have hb' : (((bits : Int)) == 1) = false := by
     have : (bits : Int) ≠ 1 := by exact_mod_cast hb
@@ -191,13 +197,19 @@ theorem lazy_eq_memory_bytes (frames : List (List Nat)) (rows cols samples bits 
 example : lazyFrameBytes [[1,2,3,4],[5,6,7,8]].flatten 1 2 3 8 2 "YBR_FULL_422" 2 false = .ok [5,6,7,8] :=
   lazy_frame_bytes_any [[1,2,3,4],[5,6,7,8]] 1 2 3 8 "YBR_FULL_422" (by decide) (by decide) (by simp [frameBytes]) 1 (by simp)
 
-/-- Batch access is a map of single access in request order. -/
-theorem batch_eq_single (pd : List Nat) (rows cols samples N : Int) (ks : List Int) (asIndex : Bool)
-    (out : List (List Bool)) (h : memFramesBits pd rows cols samples N ks asIndex = .ok out) :
-    out.length = ks.length ∧
-    ∀ j (hj : j < ks.length) (hj' : j < out.length),
-      memFrameBits pd rows cols samples N ks[j] asIndex = .ok out[j] := by
-  unfold memFramesBits at h
+/-! ## Batch access and the cached pixel array (over the call skeleton regenerated from source, target T1b) -/
+
+/-- **Batch = single, per frame**: the batch method hands the same expressions to `_standardize_frame_index`,
+`get_raw_frame` and `decode_frame(index=…)` as the single-frame method — for every image, number and convention.
+(A batch method decoding with `index=frame_number - 1`, or subscripting the cache with it, breaks this theorem.) -/
+theorem batch_eq_single (pd : List Nat) (rows cols samples N k : Int) (asIndex : Bool) :
+    batchOneBits pd rows cols samples N k asIndex = memFrameBits pd rows cols samples N k asIndex := by
+  unfold batchOneBits memFrameBits Skel.frameBits Skel.index
+  simp only [batchSkel, singleSkel, batchStdArgs, singleStdArgs, batchRawArgs, singleRawArgs, batchDecodeIndex, singleDecodeIndex]
+
+/-- mapM over an `Except` either fails or yields one answer per request, in request order -/
+theorem mapM_spec {α β} (f : α → Except ErrKind β) (ks : List α) (out : List β) (h : ks.mapM f = .ok out) :
+    out.length = ks.length ∧ ∀ j (hj : j < ks.length) (hj' : j < out.length), f ks[j] = .ok out[j] := by
   induction ks generalizing out with
   | nil =>
     simp [List.mapM_nil, pure, Except.pure] at h
@@ -219,6 +231,89 @@ theorem batch_eq_single (pd : List Nat) (rows cols samples N : Int) (ks : List I
         cases j with
         | zero => simpa using hv
         | succ j => simpa using hall j (by simpa using hj) (by simpa using hj')
+
+/-- **A batch is the list of the single fetches, in request order**; an empty batch is refused (`np.stack`). -/
+theorem batch_is_map_of_single (pd : List Nat) (rows cols samples N : Int) (ks : List Int) (asIndex : Bool)
+    (out : List (List Bool)) (h : memFramesBits pd rows cols samples N (some ks) asIndex = .ok out) :
+    ks ≠ [] ∧ out.length = ks.length ∧
+    ∀ j (hj : j < ks.length) (hj' : j < out.length),
+      memFrameBits pd rows cols samples N ks[j] asIndex = .ok out[j] := by
+  unfold memFramesBits at h
+  simp only [bind, Except.bind, pure, Except.pure] at h
+  split at h
+  · simp at h
+  · rename_i frames hf
+    split at h
+    · simp at h
+    · rename_i hne
+      simp at h
+      subst h
+      obtain ⟨hl, hall⟩ := mapM_spec _ ks frames hf
+      refine ⟨?_, hl, ?_⟩
+      · intro hk; subst hk
+        simp at hl
+        simp [hl] at hne
+      · intro j hj hj'
+        rw [← batch_eq_single]
+        exact hall j hj hj'
+
+theorem batch_empty_refused (pd : List Nat) (rows cols samples N : Int) (asIndex : Bool) :
+    memFramesBits pd rows cols samples N (some []) asIndex = .error .value := by
+  simp [memFramesBits, bind, Except.bind, pure, Except.pure]
+
+/-- a batch containing a number outside the image is refused as a whole -/
+theorem batch_with_bad_number_refused (pd : List Nat) (rows cols samples N : Int) (pre post : List Int) (k : Int)
+    (asIndex : Bool) (h : (if asIndex then k else k - 1) < 0 ∨ N ≤ (if asIndex then k else k - 1)) :
+    ∃ e, memFramesBits pd rows cols samples N (some (pre ++ k :: post)) asIndex = .error e := by
+  cases hr : memFramesBits pd rows cols samples N (some (pre ++ k :: post)) asIndex with
+  | error e => exact ⟨e, rfl⟩
+  | ok out =>
+    exfalso
+    obtain ⟨_, hl, hall⟩ := batch_is_map_of_single pd rows cols samples N _ asIndex out hr
+    have hj : pre.length < (pre ++ k :: post).length := by simp
+    have := hall pre.length hj (by omega)
+    simp only [List.getElem_append_right (Nat.le_refl _), Nat.sub_self, List.getElem_cons_zero] at this
+    rw [(memory_frame_rejected pd rows cols samples N k asIndex h).1] at this
+    simp at this
+
+/-- `frame_numbers=None` asks for every frame once, in stored order, in either convention -/
+theorem batch_default_is_all_frames (N : Nat) (asIndex : Bool) :
+    (do let (a, b) ← batchDefaultRange asIndex (N : Int); pure (pyRange a b) : Except ErrKind (List Int))
+      = .ok ((List.range N).map (fun (i : Nat) => (if asIndex then (i : Int) else (i : Int) + 1))) := by
+  unfold batchDefaultRange pyRange
+  cases asIndex <;> simp [bind, Except.bind, pure, Except.pure] <;> intro a _ <;> omega
+
+/-- **Cached pixel array = stored frame** (both methods): once `pixel_array` is decoded, frame number `i+1` (or index
+`i`) is answered with element `i` of the array, and numbers outside the image are refused — never wrapped by the
+negative-index semantics of the array subscript. -/
+theorem cached_frame {α} (sk : Skel) (hsk : sk = singleSkel ∨ sk = batchSkel) (frames : List α) (whole : α)
+    (hw : frames.length = 1 → frames = [whole]) (i : Nat) (hi : i < frames.length) (asIndex : Bool) :
+    sk.cached frames whole (if asIndex then (i : Int) else (i : Int) + 1) asIndex = .ok frames[i] := by
+  have h1 : stdFrameIndex (if asIndex then (i : Int) else (i : Int) + 1) asIndex (frames.length : Int) = .ok (i : Int) := by
+    rw [stdFrameIndex_ok_iff]; cases asIndex <;> simp <;> omega
+  unfold Skel.cached Skel.index
+  rcases hsk with rfl | rfl
+  all_goals
+    simp only [singleSkel, batchSkel, singleStdArgs, batchStdArgs, singleCacheIndex, batchCacheIndex, bind, Except.bind, h1]
+    by_cases hn : frames.length = 1
+    · have hf := hw hn
+      have hi0 : i = 0 := by omega
+      subst hi0
+      simp [hn, hf]
+    · have hn' : ¬ ((frames.length : Int) = 1) := by omega
+      simp only [hn', ↓reduceIte, pyIndex]
+      have : ¬ ((i : Int) < 0) := by omega
+      simp [this, hi]
+
+theorem cached_frame_rejected {α} (sk : Skel) (hsk : sk = singleSkel ∨ sk = batchSkel) (frames : List α) (whole : α)
+    (k : Int) (asIndex : Bool)
+    (h : (if asIndex then k else k - 1) < 0 ∨ (frames.length : Int) ≤ (if asIndex then k else k - 1)) :
+    sk.cached frames whole k asIndex = .error .index := by
+  unfold Skel.cached Skel.index
+  rcases hsk with rfl | rfl
+  all_goals
+    simp only [singleSkel, batchSkel, singleStdArgs, batchStdArgs, bind, Except.bind,
+      frame_number_rejected k (frames.length : Int) asIndex h]
 
 /-! Non-vacuity: concrete images meeting the hypotheses (three 2x3 one-bit frames: frame
 boundaries are not byte aligned; two 2-byte frames). -/
@@ -304,16 +399,18 @@ theorem read_frame_fragments (frames : List (List Frag))
     rw [hd, List.flatten_nil, List.append_nil, readLoop_all _ 0 (by omega)]
     simpa using hdata
 
-/-- Basic (stored), rebuilt and extended tables give the same frames: a stored table with one entry
-per frame is used as it is, any other is rebuilt; if both are the frame offsets the reads coincide. -/
+/-- Stored vs rebuilt Basic Offset Table: ANY stored table whose length is not the number of frames (empty, or per
+fragment) is rebuilt from the fragments; a stored table that already lists the frame offsets is used as it is; both ways
+the reader works with the frame offsets.  (A stored table of the right length but wrong content is trusted — `getBot`
+does not and cannot check it; the Extended Offset Table path `_read_eot` is a length check on a decoded list and is
+carried by the correspondence only.) -/
 theorem stored_or_rebuilt_table (frames : List (List Frag)) (stored : List Nat)
     (hw : WellFormed frames.flatten) (hm : MarkerDelimited frames ∨ ∀ fr ∈ frames, ∃ f, fr = [f])
-    (hs : stored = [] ∨ stored = frameOffsetsFrom 0 frames) (hpos : 0 < frames.length) :
+    (hs : stored.length ≠ frames.length ∨ stored = frameOffsetsFrom 0 frames) :
     getBot stored frames.flatten frames.length = .ok (frameOffsetsFrom 0 frames) := by
   unfold getBot
-  rcases hs with rfl | rfl
-  · have : ([] : List Nat).length ≠ frames.length := by simp; omega
-    simp only [this, ↓reduceIte, ne_eq, not_false_eq_true]
+  rcases hs with h | rfl
+  · simp only [h, ne_eq, not_false_eq_true, ↓reduceIte]
     rcases hm with hm | h1
     · exact bot_marker_delimited frames hw hm
     · exact bot_single_fragment frames hw h1
@@ -324,5 +421,20 @@ example : readFrameRaw [[0xFF,0xD8,1,2],[3,4],[0xFF,0xD8,5,6]] (frameOffsetsFrom
     = .ok [0xFF,0xD8,1,2,3,4] :=
   read_frame_fragments [[[0xFF,0xD8,1,2],[3,4]],[[0xFF,0xD8,5,6]]] (by simp) 0 (by simp)
 example : buildBot [[0xFF,0xD8,1,2],[3,4],[0xFF,0xD8,5,6]] 2 = .ok [0, 22] := by decide
+
+/-! more non-vacuity: the lazy path on unaligned frames; a batch; the cached path -/
+example : lazyFrameBits (pack [[true,false,false,false,false,true],[true,true,false,false,false,false],
+    [false,true,false,true,false,true]].flatten) 2 3 1 3 3 false = .ok [false,true,false,true,false,true] :=
+  lazy_frame_bits_eq [[true,false,false,false,false,true],[true,true,false,false,false,false],
+    [false,true,false,true,false,true]] 2 3 (by decide) (by simp) 2 (by simp)
+example : memFramesBits (pack [[true,false,false],[false,true,true]].flatten) 1 3 1 2 (some [1, 0, 1]) true
+    = .ok [[false,true,true],[true,false,false],[false,true,true]] := by decide +kernel
+example : memFramesBits (pack [[true,false,false],[false,true,true]].flatten) 1 3 1 2 none false
+    = .ok [[true,false,false],[false,true,true]] := by decide +kernel
+example : batchSkel.cached [10, 20, 30] 0 2 true = .ok 30 := cached_frame batchSkel (Or.inr rfl) [10,20,30] 0 (by simp) 2 (by simp) true
+example : singleSkel.cached [10, 20, 30] 0 (-1) true = .error .index :=
+  cached_frame_rejected singleSkel (Or.inl rfl) [10,20,30] 0 (-1) true (by simp)
+example : getBot [0, 12, 18] [[0xFF,0xD8,1,2],[3,4],[0xFF,0xD8,5,6]] 2 = .ok [0, 22] :=
+  stored_or_rebuilt_table [[[0xFF,0xD8,1,2],[3,4]],[[0xFF,0xD8,5,6]]] [0,12,18] (by simp [WellFormed]) (Or.inl (by simp [MarkerDelimited, isStart])) (Or.inl (by simp))
 
 end HdVerif.C05
